@@ -255,9 +255,12 @@ def targets(ctx):
 
     from . import _seq
 
+    from . import _wkt
+
     return [
         Target("grammar_schema_values", grammar_ev, strategy=gstrat, quick=3, thorough=40, time_quick=60, time_thorough=900, pin_budget=10, pin_sigs=1),
         Target("corpus_values_reencoded", ev, strategy=strat(), quick=450, thorough=6000, time_quick=70),
         Target("dense_reencodings", ev, strategy=dense(), quick=350, thorough=5000, time_quick=70),
         _seq.target("C02"),
+        _wkt.target("C02"),
     ]
